@@ -314,7 +314,9 @@ def check_function(r, rec, mod, fname, func, info, tuples, tier, exceptions):
                     res2 = func(**respell(r, kwargs, info))
                 rv2 = result_value(res2)
                 rec.hit("respelled")
-                if not rel_close(rv, rv2, mpmath.mpf("1e-9")):
+                # (exact rational arguments: 1e-9; arguments given as floats are re-spelled with a last-bit difference, which
+                #  cancellation inside the formula - 1 - exp(-x) at tiny x - amplifies: the tolerance of the law comparison)
+                if not rel_close(rv, rv2, mpmath.mpf("1e-9") if t % 3 != 1 else tol):
                     rec.violation(f"unit-spelling:{key}", f"{key}: same physical arguments written with other prefixes give {mpmath.nstr(rv2, 15)} instead of {mpmath.nstr(rv, 15)}", case)
                     return
             except TimeoutError:
